@@ -10,7 +10,11 @@ calls, the vector being ONE mutable buffer that is edited in place and passed
 again), generated together so that a replay re-executes the whole family.  No reference model is involved; the in-process contracts on
 nsf._calculate_scattering and on the three conversion functions fire on
 internal calls too; an input-immutability monitor watches the
-wavelength / energy arguments of the five entry points."""
+wavelength / energy arguments of the five entry points.
+The contract on the PRIVATE nsf._calculate_scattering and the two line counters inside
+Neutron.scattering_by_wavelength are optional instrumentation: absent, called with other
+parameters or by-passed in a tree they are skipped, noted and their reach requirements
+waived (anchor_missing.*); the relations between public results do not depend on them."""
 import json
 import math
 
@@ -146,6 +150,9 @@ def post_nonnegative(number_density, wavelength, b_c, sigma_s, result):
     """-Im, incoherent SLD, the three cross sections and the penetration depth are >= 0 (finite inputs, N > 0)."""
     import numpy as np
     n = _state['n']
+    out = _unpack7(result)
+    if out is None:
+        return True
     n['contract._calculate_scattering'] += 1
     if not (_finite(number_density) and _finite(wavelength) and _finite(b_c) and _finite(sigma_s)):
         n['contract._calculate_scattering.nonfinite_input'] += 1
@@ -157,7 +164,7 @@ def post_nonnegative(number_density, wavelength, b_c, sigma_s, result):
     # reach: did the incoherent clip engage (sigma_s < 4 pi |b_c|^2 / 100)?
     if np.any(np.asarray(sigma_s) - 4 * math.pi / 100 * np.abs(np.asarray(b_c)) ** 2 < 0):
         n['reach.clip_engaged'] += 1
-    (sld_re, sld_im, sld_inc), (coh, abs_, inc), pen = result
+    sld_re, sld_im, sld_inc, coh, abs_, inc, pen = out
     for name, x in zip(NAMES[1:], (sld_im, sld_inc, coh, abs_, inc, pen)):
         if not np.all(np.asarray(x, dtype=float) >= 0):      # NaN fails as well
             _state['breach'] = ('%s = %r for number_density=%r wavelength=%r b_c=%r sigma_s=%r'
@@ -171,7 +178,10 @@ def post_penetration(number_density, sigma_s, result):
     import numpy as np
     if not (_finite(number_density) and _finite(sigma_s)) or not np.all(np.asarray(number_density) > 0):
         return True
-    (_, _, _), (_, abs_, _), pen = result
+    try:
+        (_, _, _), (_, abs_, _), pen = result
+    except Exception:
+        return True                       # counted by post_nonnegative
     prod = np.atleast_1d(np.asarray(pen, dtype=float)
                          * (np.asarray(abs_, dtype=float) + number_density * np.asarray(sigma_s, dtype=float)))
     ok = np.isfinite(prod)
@@ -181,46 +191,71 @@ def post_penetration(number_density, sigma_s, result):
     return good
 
 
-def attach_contracts(nsf):
+def _unpack7(result):
+    """The seven outputs of a _calculate_scattering result, or None when the (private) function returns
+    another structure in this tree (then nothing is demanded of it)."""
+    try:
+        (sld_re, sld_im, sld_inc), (coh, abs_, inc), pen = result
+    except Exception:
+        _state['n']['contract._calculate_scattering.unrecognised_result'] += 1
+        return None
+    return sld_re, sld_im, sld_inc, coh, abs_, inc, pen
+
+
+def _calculate_scattering_adapter(number_density, wavelength, b_c, sigma_s, _call):
+    """Fixed-signature adapter carrying the icontract postconditions of the PRIVATE nsf._calculate_scattering;
+    _call is the pending call of the original with whatever arguments it was given (pvmon.ref.neutron.tolerant)."""
+    return _call()
+
+
+def _neutron_wavelength_adapter(energy, _call):
+    return _call()
+
+
+def _neutron_energy_adapter(wavelength, _call):
+    return _call()
+
+
+def _neutron_wavelength_from_velocity_adapter(velocity, _call):
+    return _call()
+
+
+def attach_contracts(ctx, nsf):
+    """icontract postconditions, attached through *args/**kw wrappers (pvmon.ref.neutron.tolerant): a call whose
+    arguments cannot be bound to the expected parameter names is passed through un-judged and counted.
+    nsf._calculate_scattering is private, hence optional: absent -> its contract and the clip counter are waived."""
     import icontract
     from collections import Counter
+    from ..ref.neutron import private, tolerant
     _state['n'] = Counter()
     if getattr(nsf, '_pvmon_c04_contracts', False):
         return
-    f = nsf._calculate_scattering
-    f = icontract.ensure(post_nonnegative, 'sld_im, sld_inc, coh, abs, inc, penetration >= 0', error=ContractBreach)(f)
-    f = icontract.ensure(post_penetration, 'penetration*(abs_xs + N*sigma_s) == 1', error=ContractBreach)(f)
-    f = icontract.ensure(post_inputs_unchanged, 'b_c and sigma_s are not modified', error=ContractBreach)(f)
-    f = icontract.snapshot(snap_b_c, name='b_c_before')(f)
-    f = icontract.snapshot(snap_sigma_s, name='sigma_s_before')(f)
-    nsf._calculate_scattering = f
-    nsf.neutron_wavelength = icontract.ensure(
-        post_wavelength_from_energy, 'E*lambda^2 == h^2/(2 m_n) to 1e-12, shape kept', error=ContractBreach)(nsf.neutron_wavelength)
-    nsf.neutron_energy = icontract.ensure(
-        post_energy_from_wavelength, 'E*lambda^2 == h^2/(2 m_n) to 1e-12, shape kept', error=ContractBreach)(nsf.neutron_energy)
-    nsf.neutron_wavelength_from_velocity = icontract.ensure(
+    n = _state['n']
+    orig = private(ctx, nsf, '_calculate_scattering', ['contract._calculate_scattering', 'reach.clip_engaged'])
+    if orig is not None:
+        f = _calculate_scattering_adapter
+        f = icontract.ensure(post_nonnegative, 'sld_im, sld_inc, coh, abs, inc, penetration >= 0', error=ContractBreach)(f)
+        f = icontract.ensure(post_penetration, 'penetration*(abs_xs + N*sigma_s) == 1', error=ContractBreach)(f)
+        f = icontract.ensure(post_inputs_unchanged, 'b_c and sigma_s are not modified', error=ContractBreach)(f)
+        f = icontract.snapshot(snap_b_c, name='b_c_before')(f)
+        f = icontract.snapshot(snap_sigma_s, name='sigma_s_before')(f)
+        nsf._calculate_scattering = tolerant(orig, ('number_density', 'wavelength', 'b_c', 'sigma_s'), f, n,
+                                             'contract._calculate_scattering')
+    nsf.neutron_wavelength = tolerant(nsf.neutron_wavelength, ('energy',), icontract.ensure(
+        post_wavelength_from_energy, 'E*lambda^2 == h^2/(2 m_n) to 1e-12, shape kept', error=ContractBreach)(
+            _neutron_wavelength_adapter), n, 'contract.neutron_wavelength')
+    nsf.neutron_energy = tolerant(nsf.neutron_energy, ('wavelength',), icontract.ensure(
+        post_energy_from_wavelength, 'E*lambda^2 == h^2/(2 m_n) to 1e-12, shape kept', error=ContractBreach)(
+            _neutron_energy_adapter), n, 'contract.neutron_energy')
+    nsf.neutron_wavelength_from_velocity = tolerant(nsf.neutron_wavelength_from_velocity, ('velocity',), icontract.ensure(
         post_wavelength_from_velocity, 'v*lambda == h/m_n to 1e-12, shape kept', error=ContractBreach)(
-            nsf.neutron_wavelength_from_velocity)
+            _neutron_wavelength_from_velocity_adapter), n, 'contract.neutron_wavelength_from_velocity')
     nsf._pvmon_c04_contracts = True
 
 
 # --------------------------------------------------------------------------
 # setup
 # --------------------------------------------------------------------------
-def _watch_first(ctx, reach, func, texts, label):
-    """Watch the first source line of *func* matching one of *texts*; a source that no longer contains any of
-    them must not stop the check (the reach requirement is then dropped and the fact is noted)."""
-    for text in texts:
-        try:
-            reach.watch_line_matching(func, text, label)
-        except (LookupError, OSError, TypeError):
-            continue
-        _state['watched'].add(label)
-        return True
-    ctx.note('no source line for reach counter %s in %s' % (label, getattr(func, '__qualname__', func)))
-    return False
-
-
 def setup(ctx):
     import periodictable as pt
     from periodictable import nsf, constants as c
@@ -233,14 +268,14 @@ def setup(ctx):
     _state['eV'] = c.electron_volt
     _state['EF'] = 1e3 * 1e20 * c.plancks_constant ** 2 * c.electron_volt / (2 * m_n)   # meV A^2
     _state['VF'] = 1e10 * c.plancks_constant * c.electron_volt / m_n                    # A m/s
-    attach_contracts(nsf)
+    from ..ref.neutron import watch_entry, watch_lines
+    attach_contracts(ctx, nsf)
     reach = Reach()
-    reach.watch(nsf.neutron_scattering.__wrapped__ if hasattr(nsf.neutron_scattering, '__wrapped__')
-                else nsf.neutron_scattering, 'neutron_scattering')
+    watch_entry(ctx, reach, nsf.neutron_scattering, 'neutron_scattering', requirements=[])
+    # line anchors inside the body of a public method: optional (another body -> reach.missing -> requirement waived)
     sbw = nsf.Neutron.scattering_by_wavelength
-    _state['watched'] = set()
-    _watch_first(ctx, reach, sbw, ('return ones*self.b_c_complex', 'if self.nsf_table is None'), 'branch.constant_b_c')
-    _watch_first(ctx, reach, sbw, ('np.interp(', 'return b_c, sigma_s'), 'branch.energy_table')
+    watch_lines(ctx, reach, sbw, ('return ones*self.b_c_complex', 'if self.nsf_table is None'), 'branch.constant_b_c')
+    watch_lines(ctx, reach, sbw, ('np.interp(', 'return b_c, sigma_s'), 'branch.energy_table')
     try:
         reach.start()
     except Exception as exc:       # monitoring unavailable: requirements below make the run inconclusive
@@ -737,6 +772,8 @@ def _family_body(ctx, case):
     base = _flat7(ctx, 'base', _call(ctx, 'base', base_obj, density=rho, wavelength=wla))
     _nonneg(ctx, 'base', base)
     ctx.count('form.' + base_v['form'])
+    if base[5, 0] == 0:
+        ctx.count('observed.incoherent_xs_exactly_zero')
 
     # 2. density * k ---------------------------------------------------------
     got = _flat7(ctx, 'density*k', _call(ctx, 'density*k', _build(base_v), density=rho * k, wavelength=wla))
@@ -967,11 +1004,26 @@ def finish(ctx):
     for name in ('contract._calculate_scattering', 'contract.neutron_wavelength', 'contract.neutron_energy',
                  'contract.neutron_wavelength_from_velocity'):
         ctx.require(name, 1, 'the in-process postcondition must have been evaluated')
-    if 'branch.constant_b_c' in _state.get('watched', ()):
-        ctx.require('reach.branch.constant_b_c', 1, 'constant-b_c branch of scattering_by_wavelength never entered')
-    if 'branch.energy_table' in _state.get('watched', ()):
-        ctx.require('reach.branch.energy_table', 1, 'energy-table branch of scattering_by_wavelength never entered')
+    # optional instrumentation (private function / line anchors): waived through anchor_missing.* when not applicable
+    from ..ref.neutron import anchor_missing, waive_if_bypassed
+    n = _state['n']
+    for name in ('contract._calculate_scattering', 'contract.neutron_wavelength', 'contract.neutron_energy',
+                 'contract.neutron_wavelength_from_velocity'):
+        unread = n.get(name + '.unrecognised_call', 0) + n.get(name + '.unrecognised_result', 0)
+        if unread and not n.get(name, 0):
+            anchor_missing(ctx, 'postcondition %s' % name, [name] + (['reach.clip_engaged'] if name.endswith('scattering') else []),
+                           why='met %d calls whose arguments or result it does not recognise and none it does' % unread)
+    if waive_if_bypassed(ctx, 'contract._calculate_scattering', 'calls.neutron_scattering',
+                         'postcondition on nsf._calculate_scattering'):
+        anchor_missing(ctx, 'clip counter of that postcondition', ['reach.clip_engaged'], why='goes with it')
+    for label in ('branch.constant_b_c', 'branch.energy_table'):
+        # the anchor line exists but the calculators of this tree do not run through it: evidence only
+        waive_if_bypassed(ctx, 'reach.' + label, 'calls.neutron_scattering', 'line counter %s' % label)
+    ctx.require('reach.branch.constant_b_c', 1, 'constant-b_c branch of scattering_by_wavelength never entered')
+    ctx.require('reach.branch.energy_table', 1, 'energy-table branch of scattering_by_wavelength never entered')
     ctx.require('reach.clip_engaged', 1, 'no call with sigma_s < sigma_c: the incoherent clip never engaged')
+    ctx.require('observed.incoherent_xs_exactly_zero', 1, 'no family whose incoherent cross section is clipped to exactly zero '
+                '(public-level counterpart of reach.clip_engaged)')
     ctx.require('seen.ion_atoms', 1, 'no ion in any family')
     for Z, A, _ in uni.edep:
         ctx.require('seen.edep.%d-%d' % (Z, A), 1, 'energy-dependent entry never used in a family')
